@@ -341,6 +341,37 @@ func runC12(env *core.Env) {
 			id   string
 		}{"hand-merged-cycles", core.Store{".ergo/plans.jsonl": l.Bytes(), ".ergo/lock": {}}, ep})
 	}
+	{ // tasks that wait for exactly two open tasks each (the text list names both blockers on the row; three or more are
+		// only counted): unfiled, inside an epic, and with blockers in another epic
+		l := newSynLog()
+		ep := core.IDFor(730)
+		l.Create(SynItem{ID: ep, Epic: true, Title: "epic with waiters"})
+		var bl []string
+		for i, t := range []string{"alpha", "bravo", "charlie", "delta", "echo", "foxtrot"} {
+			id := core.IDFor(int64(731 + i))
+			bl = append(bl, id)
+			in := ""
+			if i >= 4 {
+				in = ep
+			}
+			l.Create(SynItem{ID: id, Title: t, In: in})
+		}
+		for i := 0; i < 4; i++ {
+			id := core.IDFor(int64(740 + i))
+			in := ""
+			if i >= 2 {
+				in = ep
+			}
+			l.Create(SynItem{ID: id, Title: fmt.Sprintf("waiter %d", i), In: in})
+			l.Link(id, bl[(i*2)%6])
+			l.Link(id, bl[(i*2+3)%6])
+		}
+		seeds = append(seeds, struct {
+			name string
+			st   core.Store
+			id   string
+		}{"hand-merged-two-blockers", core.Store{".ergo/plans.jsonl": l.Bytes(), ".ergo/lock": {}}, ep})
+	}
 	if sample, err := core.Snapshot(filepath.Join(env.Repo, "testdata/sample-project")); err == nil && len(sample.Log()) > 0 && env.Thorough() {
 		seeds = append(seeds, struct {
 			name string
